@@ -55,3 +55,35 @@ Example C08_select : w_keyword (mk (s2l "sElEcT") None) = Kw (s2l "SELECT").
 Proof. vm_compute. reflexivity. Qed.
 Example C08_not_kw : w_keyword (mk (s2l "selects") None) = NoKeyword.
 Proof. vm_compute. reflexivity. Qed.
+
+(** Parser level (proof by interface, RecaseInvariance.v over the cursor-interface model):
+    two token vectors that differ only in the letter case of keyword occurrences (same
+    positions) give related results for every program built from the interface whose token
+    comparisons do not target a keyword word ([recase_safe]) — and for the statement loop over
+    any such statement parser: values are equal except where they carry a recased keyword token
+    itself (its own spelling is kept), errors are equal up to the found-token text; a value
+    without keyword tokens is literally identical (identifiers keep their exact spelling).
+    That the Rust parsers test keywords only through the keyword field is sampled by the
+    recasing search, not proved. *)
+Require Import SqlV.Machine SqlV.MachineRel SqlV.RecaseInvariance.
+
+Theorem C08_parser_recase_invariance : forall ts ts' tcf limit rr fuel p d,
+  recased ts ts' -> recase_safe p = true ->
+  Ro err_recase (val_rel tok_recase)
+     (fst (denote rr fuel p d (init_state ts tcf limit)))
+     (fst (denote rr fuel p d (init_state ts' tcf limit))).
+Proof. exact recase_invariance_init. Qed.
+Print Assumptions C08_parser_recase_invariance.
+
+Theorem C08_script_recase_invariance : forall ts ts' A (RA : A -> A -> Prop) (stmt stmt' : M A) tcf limit fuel d,
+  recased ts ts' -> IfaceRC tok_recase cmp_safe A RA stmt stmt' ->
+  Ro err_recase (Forall2 RA)
+     (fst (parse_statements fuel stmt d (init_state ts tcf limit)))
+     (fst (parse_statements fuel stmt' d (init_state ts' tcf limit))).
+Proof. exact recase_invariance_statements. Qed.
+Print Assumptions C08_script_recase_invariance.
+
+Theorem C08_identifier_spelling_exact : forall v v',
+  val_rel tok_recase v v' -> no_kw_token v = true -> v = v'.
+Proof. exact recase_value_exact. Qed.
+Print Assumptions C08_identifier_spelling_exact.
